@@ -5,7 +5,7 @@
    LinearOperator.__getitem__ and the per-class index arithmetic of _get_indices / _getitem. *)
 From Coq Require Import List ZArith Bool Arith Lia.
 Import ListNotations.
-Require Import C03.Model C03.Proofs C03.ProofsSlice C03.ProofsSize C03.ProofsClass C03.ProofsCat.
+Require Import C03.Model C03.Proofs C03.ProofsSlice C03.ProofsSize C03.ProofsClass C03.ProofsCat C03.ProofsDiag C03.ProofsFront.
 Open Scope Z_scope.
 
 (* ===================================================================================== *)
@@ -54,6 +54,39 @@ Proof.
   intros n i H. split; [exact (int_as_slice_fixed_sel _ _ H)|exact (plan_int_as_slice_fixed n i H)].
 Qed.
 
+(* THE FRONT END ON BASIC INDICES.  For every rank >= 2, every tensor and every index made of ints (negative ones
+   included), slices (any bounds, positive steps), one Ellipsis and missing trailing dimensions — no tensor index —
+   that torch accepts: the repaired __getitem__ (ellipsis fill, padding, int -> slice(i, i+1 or None), _getitem,
+   squeeze(-2) / squeeze(-1)) over an operator whose _getitem is torch indexing returns exactly the torch result *)
+Theorem C03_getitem_basic_fixed : forall t idx index r,
+  (2 <= length (tshape t))%nat ->
+  spec_expand (length (tshape t)) idx = Some index ->
+  forallb basic index = true ->
+  torch_index t idx = Some r ->
+  getitem_model Fixed false t idx = Some r.
+Proof. exact getitem_fixed_basic. Qed.
+
+(* the pinned __getitem__ does so whenever neither the row nor the column index is the int -1 *)
+Theorem C03_getitem_basic_pinned_partial : forall t idx index r,
+  (2 <= length (tshape t))%nat ->
+  spec_expand (length (tshape t)) idx = Some index ->
+  forallb basic index = true ->
+  not_m1 (nth (length (tshape t) - 2) index full) = true ->
+  not_m1 (nth (length (tshape t) - 1) index full) = true ->
+  torch_index t idx = Some r ->
+  getitem_model Pinned false t idx = Some r.
+Proof. exact getitem_pinned_basic_partial. Qed.
+
+(* ... and returns an EMPTY tensor of the wrong shape for op[-1, :] (debug off), e.g. on a 3 x 4 matrix *)
+Theorem C03_getitem_basic_pinned_refuted :
+  let t := mkT [3; 4]%nat [0;1;2;3;4;5;6;7;8;9;10;11] in
+  let idx := [RItem (IInt (-1)); RItem full] in
+  torch_index t idx = Some (mkT [4]%nat [8;9;10;11]) /\
+  getitem_model Pinned false t idx = Some (mkT [0; 4]%nat []) /\
+  getitem_model Pinned true t idx = None /\
+  getitem_model Fixed true t idx = Some (mkT [4]%nat [8;9;10;11]).
+Proof. vm_compute. repeat split; reflexivity. Qed.
+
 (* ===================================================================================== *)
 (** utils/getitem.py *)
 
@@ -83,6 +116,9 @@ Theorem C03_toeplitz : forall n r c, 0 <= r < n -> 0 <= c < n ->
   toeplitz_index n r c = Z.abs (r - c) /\ 0 <= toeplitz_index n r c < n.
 Proof. exact toeplitz_index_correct. Qed.
 
+Theorem C03_toeplitz_diagonal : forall n r, 0 <= r < n -> toeplitz_index n r r = 0.
+Proof. exact toeplitz_diagonal. Qed.
+
 (* Kronecker product of ANY number of factors of any sizes: the running floor-div / fmod digit extraction inverts
    the composition of a Kronecker index, so entry (compose rd, compose cd) is the product of the factor entries *)
 Theorem C03_kron_digits : forall sizes ds, digits_ok sizes ds ->
@@ -98,6 +134,13 @@ Theorem C03_kron_all_entries : forall sizes, Forall (fun s => 0 < s) sizes -> fo
   exists ds, digits_ok sizes ds /\ compose sizes ds = x.
 Proof. exact compose_surjective. Qed.
 
+(* _kron_diag (recursive unsqueeze / transpose / reshape): position compose(ds) of the Kronecker diagonal is the
+   product of the factor diagonals at the digits — any number of factors *)
+Theorem C03_kron_diagonal : forall diags ds,
+  digits_ok (map (fun l => Z.of_nat (length l)) diags) ds ->
+  nth (Z.to_nat (compose (map (fun l => Z.of_nat (length l)) diags) ds)) (kron_diag diags) 0 = prod_diag diags ds.
+Proof. exact kron_diag_correct. Qed.
+
 (* BlockDiag (blocks m x n): entry (bi*m + i, bj*n + j) is base[bi][i, j] on the diagonal blocks, 0 elsewhere *)
 Theorem C03_blockdiag : forall m n base bi i bj j, 0 <= bi -> 0 <= i < m -> 0 <= bj -> 0 <= j < n ->
   blockdiag_get_indices m n base (bi * m + i) (bj * n + j) = if bi =? bj then base bi i j else 0.
@@ -107,6 +150,16 @@ Proof. exact blockdiag_get_indices_correct. Qed.
 Theorem C03_blockinterleaved : forall k base bi i bj j, 0 <= bi < k -> 0 <= i -> 0 <= bj < k -> 0 <= j ->
   blockinterleaved_get_indices k base (i * k + bi) (j * k + bj) = if bi =? bj then base bi i j else 0.
 Proof. exact blockinterleaved_get_indices_correct. Qed.
+
+(* BlockDiag._diagonal (base diagonals (k, m) viewed as k*m) and BlockInterleaved._diagonal (transposed, then flattened):
+   the flat positions b*m + i resp. i*k + b hold base[b][i, i], which is the diagonal entry of the block operator *)
+Theorem C03_blockdiag_diagonal : forall m base b i, 0 <= b -> 0 <= i < m ->
+  blockdiag_get_indices m m base (b * m + i) (b * m + i) = base b i i.
+Proof. exact blockdiag_diagonal. Qed.
+
+Theorem C03_blockinterleaved_diagonal : forall k base b i, 0 <= b < k -> 0 <= i ->
+  blockinterleaved_get_indices k base (i * k + b) (i * k + b) = base b i i.
+Proof. exact blockinterleaved_diagonal. Qed.
 
 (* BatchRepeat: entry b of a batch dimension repeated `rep` times is entry b.fmod(size) of the base *)
 Theorem C03_batchrepeat : forall (l : list Z) rep b, (b < rep * length l)%nat ->
@@ -180,6 +233,13 @@ Example C03_ex_cat : (* three components of sizes 2, 0, 3: index 3 is local inde
   cat_locate [2;0;3]%nat 3 = (2, 1)%nat /\
   split_slice Fixed [2;2;2]%nat (Some 1) (Some 6) = [(0%nat, 1, 2); (1%nat, 0, 2); (2%nat, 0, 2)].
 Proof. split; vm_compute; reflexivity. Qed.
+
+Example C03_ex_front : (* x[-1, 1::2] and x[..., 0] on a 2 x 3 x 4 tensor satisfy the hypotheses of C03_getitem_basic_fixed *)
+  let t := mkT [2;3;4]%nat (map Z.of_nat (seq 0 24)) in
+  (exists index r, spec_expand 3 [RItem (IInt (-1)); RItem (ISlice (Some 1) None (Some 2))] = Some index /\
+     forallb basic index = true /\ torch_index t [RItem (IInt (-1)); RItem (ISlice (Some 1) None (Some 2))] = Some r /\ tshape r = [1; 4]%nat) /\
+  getitem_model Fixed true t [REllipsis; RItem (IInt 0)] = Some (mkT [2;3]%nat [0;4;8;12;16;20]).
+Proof. vm_compute. split; [eexists; eexists; repeat split; reflexivity|reflexivity]. Qed.
 
 Example C03_ex_int_slice : in_range 4 (-4) = true /\ slice_sel (int_as_slice Pinned (-4)) 4 = Some (0, 1).
 Proof. split; vm_compute; reflexivity. Qed.
